@@ -652,6 +652,8 @@ class Run:
 
     def e_c06(self):
         cases = [c for c in getattr(self, "err_cases", []) if c["accepted"]]
+        # acts of the scenario that fail while being initialised: the engine raises the error itself (code not fixed by the property)
+        cases += [dict(nid=n, code=None, accepted=True) for n in (getattr(self.cfg, "engine_errors", None) or []) if [t for t in self.tasks() if t["nid"] == n]]
         used = set()
         for i, ec in enumerate(cases):
             self.c06_case(ec, i == len(cases) - 1, used)
@@ -666,7 +668,7 @@ class Run:
         match = None
         for i, (kind, n) in enumerate(chain):
             for c in n.get("catches", []) or []:
-                if c.get("on") is None or c.get("on") == code:
+                if c.get("on") is None or (code is not None and c.get("on") == code):
                     catcher, match = i, c
                     break
             if catcher is not None:
@@ -685,11 +687,11 @@ class Run:
                 for t in inst(n["id"])[-1:]:
                     if t["state"] != "Error":
                         self.viol("uncaught-not-error:%s=%s" % (kind, t["state"]), "uncaught error %s: %s %s is %s, expected error" % (code, kind, n["id"], t["state"]))
-                    elif (t["err"] or {}).get("ecode") != code:
+                    elif code is not None and (t["err"] or {}).get("ecode") != code:
                         self.viol("uncaught-wrong-code:%s" % kind, "%s %s carries %r, expected code %s" % (kind, n["id"], t["err"], code))
             if len(errs) != 1 or comps:
                 self.viol("uncaught-events:error=%d,complete=%d" % (len(errs), len(comps)), "uncaught error must deliver exactly one error event")
-            elif (errs[0][1].get("inputs") or {}).get("ecode") != code:
+            elif code is not None and (errs[0][1].get("inputs") or {}).get("ecode") != code:
                 self.viol("error-event-wrong-code", "error event carries %r" % (errs[0][1].get("inputs"),))
             return
         # caught
@@ -1248,6 +1250,9 @@ class ReplayRun(Run):
 
     def r_c06(self, v, obs):
         errs = [e for e in self.log if e.get("action") == "Error"]
+        if not errs and getattr(self.cfg, "engine_errors", None):
+            self.e_c06()
+            return
         if not errs:
             return
         self.err_cases = [dict(nid=e["target"], code=e["options"]["ecode"], accepted=bool(e.get("accepted"))) for e in errs]
